@@ -141,6 +141,10 @@ func (a *Analyzer) globalObj(g *ssa.Global) *Obj {
 	}
 	o := &Obj{ID: a.id(), Desc: g.Name(), Typ: g.Type().(*types.Pointer).Elem()}
 	a.globObj[g] = o
+	if a.objGlobal == nil {
+		a.objGlobal = map[int]*ssa.Global{}
+	}
+	a.objGlobal[o.ID] = g
 	return o
 }
 
@@ -273,6 +277,12 @@ func (a *Analyzer) load(st *State, p *Ptr, t types.Type) Term {
 		return s
 	}
 	var v Term
+	if g, isGlobal := a.objGlobal[p.Obj.ID]; isGlobal && !a.inGlobInit {
+		if gv, known := a.globalInitValue(g, loc); known {
+			st.Heap[loc] = gv
+			return gv
+		}
+	}
 	if p.Obj.Fresh {
 		v = a.zeroOf(t)
 	} else {
@@ -335,6 +345,9 @@ func (a *Analyzer) store(st *State, p *Ptr, v Term, t types.Type) {
 		le := lastElem(p.Path)
 		for k := range st.Heap {
 			if k.Obj != p.Obj.ID && strings.HasSuffix(k.Path, le) && !a.isFreshObj(k.Obj) {
+				if a.objGlobal[k.Obj] != nil && a.objGlobal[p.Obj.ID] != nil {
+					continue // two different package-level variables never overlap
+				}
 				delete(st.Heap, k)
 			}
 		}
